@@ -180,6 +180,45 @@ def visited (pos : Pos) : List Seg → List Pos
   | [] => [pos]
   | e :: es => pos :: visited (walkStep pos e) es
 
+/-! ## The import statement (`importRuntime.Eval`) and the command line tool
+
+`importRuntime.Eval` evaluates the path expression, hands `fmt.Sprint` of it to the provider's
+CONFIGURED locator, parses the returned text under the import path as source name and evaluates
+it — which may execute further import statements. Neither the source name of the importing
+program (`rt.node.Token.Lsource`) nor anything else takes part in locating the file.
+`CLIInterpreter.CreateRuntimeProvider` builds the locator as `FileImportLocator{Root: *i.Dir}`. -/
+
+/-- what a file contains, as far as imports are concerned -/
+inductive FileContent where
+  /-- a leaf module (the harness's sentinel number `id`) -/
+  | sentinel (id : Nat)
+  /-- a module whose import statement names the path `inner` (and re-exports what it gets) -/
+  | imports (inner : Str)
+deriving Repr
+
+/-- the file system as `ReadFile` sees it: the content for a path string, `none` = error -/
+abbrev FS := Str → Option FileContent
+
+/-- the import statement `import "<p>"` in a program parsed under the source name `src`, with the
+    locator configured with `root`: the sentinel finally reached (`none` = error) and every string
+    handed to `ReadFile` on the way. `fuel` bounds the nesting. -/
+def importEval (fs : FS) (root : Str) : Nat → (src : Str) → (p : Str) → Option Nat × List Str
+  | 0, _, _ => (none, [])
+  | fuel + 1, _, p =>
+    match resolve root p with
+    | .opened q =>
+      match fs q with
+      | none => (none, [q])
+      | some (.sentinel n) => (some n, [q])
+      | some (.imports inner) =>
+        -- the imported text is parsed under the name `p`; its import statement runs with that name
+        let r := importEval fs root fuel p inner
+        (r.1, q :: r.2)
+    | _ => (none, [])
+
+/-- `CreateRuntimeProvider`: the locator's root is the configured directory string itself -/
+def toolLocatorRoot (dir : Str) : Str := dir
+
 /-! ## Specification -/
 
 /-- `q` lies lexically inside `root`: same rootedness, the cleaned root's elements are a prefix
